@@ -6,6 +6,7 @@ import (
 	"bytes"
 	"errors"
 	"io"
+	"net/http"
 )
 
 // C14: body tracing reconstructs the exact message sequence and never alters the data.
@@ -114,6 +115,155 @@ type vEv struct {
 	xor    byte
 	err    error
 }
+
+func h14w(M, L, R int) {
+	isRequest, withDecomp := false, false
+	// ---- the body: M messages (flags any byte, declared length <= L, any payload), cut after `limit` bytes
+	stream := make([]byte, 0, vMaxMsgs*(5+4))
+	var flags [vMaxMsgs]byte
+	var lens [vMaxMsgs]int
+	for k := 0; k < M; k++ {
+		flags[k] = vByteAt("flags", k, vMaxMsgs)
+		lens[k] = vIntAt("len", k, vMaxMsgs, 0, L)
+		stream = append(stream, flags[k], 0, 0, 0, byte(lens[k]))
+		for j := 0; j < lens[k]; j++ {
+			stream = append(stream, vByteAt("payload", k*4+j, vMaxMsgs*4))
+		}
+	}
+	limit := vInt("limit", 0, vMaxMsgs*(5+4))
+	vSkipCase(limit > len(stream)) // lens and limit are case-split dimensions (concrete in each engine run)
+
+	// ---- reference events, from the structure
+	var want [2*vMaxMsgs + 2]vEv
+	nw := 0
+	pos, x := 0, 0
+	stop := false
+	for k := 0; k < M && !stop; k++ {
+		rem := limit - pos
+		if rem <= 0 {
+			stop = true
+		} else if rem < 5 {
+			want[nw] = vEv{kind: 1, n: uint64(rem), idx: x}
+			nw++
+			stop = true
+		} else {
+			pos += 5
+			if lens[k] == 0 {
+				want[nw] = vEv{kind: 1, hasEnv: true, flags: flags[k], elen: 0, n: 0, idx: x}
+				nw++
+				x++
+			} else {
+				a := limit - pos
+				if a < lens[k] {
+					if a > 0 {
+						want[nw] = vEv{kind: 1, hasEnv: true, flags: flags[k], elen: uint32(lens[k]), n: uint64(a), idx: x}
+						nw++
+					}
+					stop = true
+				} else {
+					want[nw] = vEv{kind: 1, hasEnv: true, flags: flags[k], elen: uint32(lens[k]), n: uint64(lens[k]), idx: x}
+					nw++
+					x++
+					if !isRequest && flags[k]&0x82 != 0 {
+						ev := vEv{kind: 2, start: pos, clen: lens[k]}
+						if withDecomp && flags[k]&1 != 0 {
+							ev.xor = 0x55
+						}
+						want[nw] = ev
+						nw++
+					}
+					pos += lens[k]
+				}
+			}
+		}
+	}
+
+	// ---- the code under test: the handler writes the first `limit`+extra bytes in R writes; the last write may be short
+	extra := vInt("extra", 0, 2) // bytes of the last write that the underlying writer does not accept
+	vSkipCase(limit+extra > len(stream))
+	under := &vShortWriter{hdr: http.Header{}}
+	col := &vCollector{}
+	bld := &builder{collector: col, trace: Trace{TestName: "t"}}
+	tw := &tracingResponseWriter{respWriter: under, builder: bld, started: true, resp: &http.Response{Trailer: http.Header{}},
+		dataTracer: dataTracer{isStreamProtocol: true, builder: bld}}
+	pos = 0
+	var werr error
+	for i := 0; i < R && werr == nil; i++ {
+		n := vIntAt("rn", i, vMaxReads, 0, 24)
+		last := i == R-1
+		if last {
+			vSkipCase(pos+n != limit)
+			under.accept = n
+			under.fail = extra > 0 || vBool("lastFails")
+			got, err := tw.Write(stream[pos : pos+n+extra])
+			vAssert(got == n && (err != nil) == under.fail, "Write returns the underlying writer's count and error")
+			werr = err
+		} else {
+			vSkipCase(pos+n > limit)
+			under.accept = n
+			got, err := tw.Write(stream[pos : pos+n])
+			vAssert(got == n && err == nil, "Write returns the underlying writer's count and error")
+		}
+		pos += n
+	}
+	vAssert(under.bytes == limit, "exactly the accepted bytes reach the real writer")
+	if werr == nil {
+		tw.tryFinish(nil) // what TracingHandler does when the handler returns
+	}
+	vAssert(col.n == 1, "exactly one trace is completed")
+	evs := col.last.Events
+	vAssert(len(evs) == nw+1, "number of events = messages (+ end-stream) + one body end")
+	for i := 0; i < nw && i < len(evs); i++ {
+		w := want[i]
+		kind := 0
+		var hasEnv bool
+		var fl byte
+		var elen uint32
+		var n uint64
+		idx := -1
+		switch ev := evs[i].(type) {
+		case *ResponseBodyData:
+			kind = 1
+			if ev.Envelope != nil {
+				hasEnv, fl, elen = true, ev.Envelope.Flags, ev.Envelope.Len
+			}
+			n, idx = ev.Len, ev.MessageIndex
+		case *ResponseBodyEndStream:
+			kind = 2
+		}
+		vAssert(kind == w.kind, "event kind in order")
+		if w.kind == 1 && kind == 1 {
+			vAssert(hasEnv == w.hasEnv && (!hasEnv || (fl == w.flags && elen == w.elen)) && n == w.n && idx == w.idx, "the trace shows what was actually written: envelope, bytes seen, index")
+		}
+	}
+	if len(evs) == nw+1 {
+		be, ok := evs[nw].(*ResponseBodyEnd)
+		vAssert(ok && (be.Err != nil) == (werr != nil), "the body end carries the write error, if any")
+	}
+}
+
+type vShortWriter struct {
+	hdr    http.Header
+	accept int
+	fail   bool
+	bytes  int
+}
+
+func (w *vShortWriter) Header() http.Header { return w.hdr }
+func (w *vShortWriter) WriteHeader(int)     {}
+func (w *vShortWriter) Write(p []byte) (int, error) {
+	n := w.accept
+	if n > len(p) {
+		n = len(p)
+	}
+	w.bytes += n
+	if w.fail {
+		return n, errVerifBody
+	}
+	return n, nil
+}
+
+func H14w_q() { h14w(2, 2, 2) }
 
 func h14a(M, L, R int, isRequest bool, withDecomp bool) {
 	// ---- the body: M messages (flags any byte, declared length <= L, any payload), cut after `limit` bytes
